@@ -43,7 +43,9 @@ DESTS = ["ret", "text", "bin", "path"]
 SOURCES = ["content_str", "content_bytes", "text_stream", "bin_stream", "path"]
 NONASCII = ["héllo ✓ 漢字", "ünï", "日本語テキスト", "naïve café", "Ω≈ç√∫", "emoji 🙂 here", "mixed ascii and ß", "plain ascii", "çà et là",
             "Ελληνικά", "русский", "a<b & c>d é", 'quote " é', "tab\tü",
-            "première ligne\r\nseconde ligne", "à\ré", "unix\nnewline ü"]
+            "première ligne\r\nseconde ligne", "à\ré", "unix\nnewline ü",
+            # separators that only some line-splitting functions know (NEL, LS, PS), and text outside normal form C
+            "ligne\u2028suivante", "absätze\u2029getrennt", "next\u0085line", "Cafe\u0301 \u212b"]
 LOCALS = ["e1", "e2", "a1", "ag1", "r1", "entité", "活動", "x-1", "u_v", "ünit"]
 KNOWN = {"trig-graph-block-order": "C16:trig-graph-block-order"}
 
